@@ -3354,14 +3354,14 @@ func textNonEmptyAt(p *Prog, v ssa.Value, b *ssa.BasicBlock, d int) bool {
 			} else if y, ok := bo.Y.(*ssa.Call); ok && isBuiltinCall(y, "len") {
 				lc = y
 			}
-			if lc != nil && pol != neg && (lc.Common().Args[0] == v || sameVar(lc.Common().Args[0], v)) {
+			if lc != nil && pol != neg && sameStringExpr(lc.Common().Args[0], v, 0) {
 				return true
 			}
 		}
 		// x != "" / x == ""
 		if bo.Op == token.NEQ || bo.Op == token.EQL {
 			for _, pair := range [][2]ssa.Value{{bo.X, bo.Y}, {bo.Y, bo.X}} {
-				if sv, isS := constString(pair[1]); isS && sv == "" && (pair[0] == v || sameVar(pair[0], v)) {
+				if sv, isS := constString(pair[1]); isS && sv == "" && sameStringExpr(pair[0], v, 0) {
 					if (bo.Op == token.NEQ) == pol {
 						return true
 					}
@@ -3384,4 +3384,37 @@ func textNonEmptyAt(p *Prog, v ssa.Value, b *ssa.BasicBlock, d int) bool {
 		return true
 	}
 	return false
+}
+
+
+// sameStringExpr: the same value, the same variable, or the same pure strings.* call on the same operands (the
+// trimmed text computed once for the test and once more for the store).
+func sameStringExpr(a, b ssa.Value, d int) bool {
+	if a == b || sameVar(a, b) {
+		return true
+	}
+	if d > 2 {
+		return false
+	}
+	ca, okA := a.(*ssa.Call)
+	cb, okB := b.(*ssa.Call)
+	if !okA || !okB || ca.Common().StaticCallee() == nil || ca.Common().StaticCallee() != cb.Common().StaticCallee() {
+		return false
+	}
+	if !strings.HasPrefix(calleeFullName(ca.Common()), "strings.") || len(ca.Common().Args) != len(cb.Common().Args) {
+		return false
+	}
+	for i := range ca.Common().Args {
+		x, y := ca.Common().Args[i], cb.Common().Args[i]
+		if kx, isX := constString(x); isX {
+			if ky, isY := constString(y); !isY || kx != ky {
+				return false
+			}
+			continue
+		}
+		if !sameStringExpr(x, y, d+1) {
+			return false
+		}
+	}
+	return true
 }
